@@ -111,6 +111,7 @@ def oracle(ctx, o, first_only=False):
         if not ok:
             fails.append({"input": inp, "observed": observed, "expected": expected})
 
+    verified = []       # (hasher, handler, original, mutant, input record): mutants that verified the original password
     names = vc.all_names()
     ctx_all = CryptContext([n for n in names if n not in ("plaintext", "ldap_plaintext", "roundup_plaintext", "unix_disabled", "django_disabled", "htdigest", "cisco_type7")
                             and not vc.ctx_kwds(vc.handler(n))] + ["unix_disabled"])
@@ -125,8 +126,10 @@ def oracle(ctx, o, first_only=False):
             continue
         slow = name in fc.EXPENSIVE or name in ("sun_md5_crypt", "scrypt")
         muts = structural_mutants(hs, rng, ctx.thorough)
+        always = [hs + "x", hs + hs, hs + "$", hs + "\n", hs + " ", " " + hs, hs[:-1], hs[:-1] + ("A" if hs[-1:] != "A" else "B"), hs.swapcase()]
         if slow and not ctx.thorough:
             muts = rng.sample(muts, min(len(muts), 60))
+        muts = sorted(set(muts) | {m for m in always if m != hs})
         for m in muts:
             for form in ((m, m.encode("utf-8", "surrogatepass")) if rng.random() < 0.2 else (m,)):
                 inp = {"op": "mutant", "hasher": name, "original": hs, "mutant": form if isinstance(form, str) else form.hex(), "bytes": isinstance(form, bytes)}
@@ -138,9 +141,7 @@ def oracle(ctx, o, first_only=False):
                 if st == "err":
                     chk(name + ":verify-clean-error", vc.is_clean_error(r), inp, type(r).__name__ + ": " + str(r)[:80], "ValueError / TypeError")
                 elif r is True and name not in ("plaintext", "ldap_plaintext", "roundup_plaintext"):
-                    sp = same_parse(h, hs, form if isinstance(form, str) else form.decode("utf-8", "replace"))
-                    chk(name + ":altered-never-verifies", sp is True or sp is None and name in ("htdigest",), inp, "verified",
-                        "only a re-encoding of the same settings and digest verifies")
+                    verified.append((name, h, hs, form if isinstance(form, str) else form.decode("utf-8", "replace"), inp))
                 if hasattr(hh, "needs_update"):
                     st, r = vc.safe_call(lambda: hh.needs_update(form))
                     if st == "err":
@@ -160,6 +161,26 @@ def oracle(ctx, o, first_only=False):
                 st, r = vc.safe_call(fn)
                 if st == "err":
                     chk("context:" + tag + "-clean-error", vc.is_clean_error(r), inp, type(r).__name__ + ": " + str(r)[:80], "ValueError / TypeError")
+    # ---- a mutant that verified must denote the same settings and digest.  Judged by the C07 parse MODEL where the format has one (so a
+    #      parser that starts ignoring part of the string cannot vouch for itself), by the real parser otherwise.
+    lines = []
+    for name, h, hs, m, inp in verified:
+        lines += [f"fmt parse {name} {cps(hs)}", f"fmt parse {name} {cps(m)}"]
+    try:
+        outs = ctx.model(lines) if lines else []
+    except Exception:  # noqa: BLE001
+        outs = ["bad-op"] * len(lines)
+    for i, (name, h, hs, m, inp) in enumerate(verified):
+        a, b = outs[2 * i], outs[2 * i + 1]
+        if a.startswith("ok ") and not a.startswith("ok None"):
+            same = (a == b)
+            if not same and name in ("django_des_crypt", "mssql2000", "scram"):
+                same = bool(same_parse(h, hs, m))          # documented non-feeding parts (see same_parse)
+        else:
+            same = bool(same_parse(h, hs, m)) or (same_parse(h, hs, m) is None and name == "htdigest")
+        chk(name + ":altered-never-verifies", same, inp, "verified", "only a re-encoding of the same settings and digest verifies")
+        if fails and first_only:
+            return fails
     # libpass hashers
     from libpass.hashers.bcrypt import BcryptHasher, BcryptSHA256Hasher
     from libpass.hashers.pbkdf2 import PBKDF2SHA256Handler, PBKDF2SHA512Handler
@@ -220,6 +241,15 @@ def replay(ctx, inp):
             return {"fails": False, "observed": "parsed"}
         except Exception as e:  # noqa: BLE001
             return {"fails": not isinstance(e, ValueError), "observed": type(e).__name__ + ": " + str(e)[:100]}
+    if op == "lenient-reencodings":
+        from passlib.hash import bsdi_crypt, pbkdf2_sha256, sha1_crypt
+
+        h1 = bsdi_crypt.using(rounds=5).hash("pw")
+        h2 = sha1_crypt.using(rounds=5).hash("pw")
+        h3 = pbkdf2_sha256.using(rounds=5).hash("pw")
+        obs = {"bsdi_crypt + newline": bsdi_crypt.verify("pw", h1 + "\n"), "sha1_crypt rounds ' +5 '": sha1_crypt.verify("pw", h2.replace("$5$", "$ +5 $", 1)),
+               "pbkdf2_sha256 junk in salt": pbkdf2_sha256.verify("pw", h3.replace("$5$", "$5$!!!!", 1))}
+        return {"fails": any(v is True for v in obs.values()), "observed": obs}
     if op == "mssql2000-first-half":
         from passlib.hash import mssql2000
 
